@@ -131,6 +131,7 @@ class Run:
         self.scope: CancelScope | None = None
         self.host_task: Any = None
         self.current_ok = True
+        self.loop_crash: BaseException | None = None
 
     # ---- probes -------------------------------------------------------------------------
 
@@ -458,7 +459,14 @@ class Run:
 
 def execute(prog: dict[str, Any]) -> Run:
     run = Run(prog)
-    run_virtual(prog["backend"], run.main, sched_seed=prog["sched_seed"], shuffle=prog["shuffle"])
+    try:
+        run_virtual(prog["backend"], run.main, sched_seed=prog["sched_seed"], shuffle=prog["shuffle"])
+    except BaseException as e:
+        # run.main() catches everything that propagates in the host task, so whatever arrives here went
+        # around it: an injected KeyboardInterrupt/SystemExit raised in some *other* task (asyncio lets those
+        # two kill the loop) or a virtual deadlock.
+        run.loop_crash = e
+        run.trace.log("loop-crash", "harness", exc=describe_exc(e))
     return run
 
 
@@ -500,6 +508,17 @@ def check_trace(run: Run) -> list[dict[str, Any]]:
             ended.add(a)
             if running == a:
                 running = None
+    if run.loop_crash is not None:
+        from vkit.vtime import VirtualDeadlock
+
+        if isinstance(run.loop_crash, VirtualDeadlock):
+            bad("teardown-deadlock", f"the program never finished: {run.loop_crash}")
+        elif "injected" in str(run.loop_crash):
+            bad("teardown-escaped-loop", f"{describe_exc(run.loop_crash)} raised by a callback escaped the event loop: the callback "
+                                         f"was not running in the task that leaves the context")
+        else:
+            raise run.loop_crash  # not ours: harness error
+        return V
     if not run.boundary_recorded:
         bad("teardown-no-boundary", "the block was never left (boundary not reached)")
         return V
